@@ -153,9 +153,9 @@ JUDGES = {"hash": judge_hash, "encode_type": judge_encode_type, "member_kind": j
 
 def shards(tier, seed):
     T = tier == "thorough"
-    out = [{"name": "docs-%d" % i, "count": 1500 if T else 90} for i in range(24)]
+    out = [{"name": "docs-%d" % i, "count": 2000 if T else 200} for i in range(24)]
     out.append({"name": "domains", "reps": 6 if T else 1, "exhaustive": "all 31 legal EIP712Domain shapes"})
-    out.append({"name": "hook-graphs", "count": 8000 if T else 1200})
+    out.append({"name": "hook-graphs", "count": 30000 if T else 3000})
     out.append({"name": "hook-member-kind", "exhaustive": "member type image: every atom x every suffix combination to depth 3"})
     return out
 
